@@ -189,6 +189,9 @@ def main():
                     notes.append('unit %s: obligation outside this property failed: %s' % (u, name))
                     continue
                 fm = next((m for m in metas if m['qual'] == q), None)
+                if fm and fm['rules_fired'].get('subst_skipped'):
+                    undecided.append('unit %s: %s fails but a site-specific rewrite of the proof script did not apply to the current source (the code was restructured): %s' % (u, q, e['label'][:100]))
+                    continue
                 if fm and fm['rules_fired'].get('hint_skipped'):
                     undecided.append('unit %s: %s fails but a proof hint lost its anchor in the current source (the proof script no longer applies): %s' % (u, q, e['label'][:100]))
                     continue
